@@ -395,7 +395,7 @@ impl<'a> Lexer<'a> {
         let c = self.bump().unwrap();
         let n1 = self.peek();
         let n2 = self.peek_at(1);
-        let mut take = |lx: &mut Lexer, n: usize| {
+        let take = |lx: &mut Lexer, n: usize| {
             for _ in 0..n {
                 lx.bump();
             }
@@ -606,7 +606,7 @@ impl<'a> Lexer<'a> {
         let mut is_float = false;
         let mut bad_us = false;
         let mut invalid_digit = false;
-        let mut radix = 10u32;
+        let radix: u32;
         let mut legacy_octal = false;
         if self.peek() == Some(b'0') && matches!(self.peek_at(1), Some(b'x' | b'X' | b'b' | b'B' | b'o' | b'O')) {
             self.bump();
